@@ -53,6 +53,15 @@ def main() -> int:
             mod.replay(ctx, replay)
         else:
             mod.run(ctx)
+            changed = common.changed_anchor_files(prop)
+            if changed and not ctx.violations and not os.environ.get("VERIF_NO_SECOND_PASS"):
+                # the modelled source differs from the tree the correspondence was last validated on:
+                # explore more of it (second pass, different random stream); never an alarm by itself
+                common.log(f"[{prop}] anchor files changed: {changed} -> second pass with another random stream")
+                import numpy as np
+                ctx.rng = np.random.Generator(np.random.PCG64(seed + 7919))
+                ctx.notes["anchor_files_changed"] = changed
+                mod.run(ctx)
         return ctx.finish()
     except common.InfraError as e:
         common.log(f"[{prop}] infrastructure error: {e}")
